@@ -1051,9 +1051,10 @@ def dg_direct(ctx, pt, r, cases=None):
         return
     s = pt.meas["sigma"]
     if pt.meas.get("timeout"):
-        report(ctx, pt, "C02:GaussianDiscrete:calibration-does-not-terminate", "seconds in the constructor", 3, 0,
-               "GaussianDiscrete._find_scale does not return: np.exp(epsilon) overflows to inf for epsilon > 709, the "
-               "objective is inf * 0 = nan and neither branch of the bisection ever moves the bracket")
+        # GaussianDiscrete(epsilon > 709) never returns from its constructor at HEAD (np.exp(epsilon) = inf, objective
+        # inf * 0 = nan, the bisection never moves).  A mechanism that is never constructed releases nothing: this is not
+        # a violation of C02 (whose quantifier ends at epsilon = 50 anyway) - counted as an observation, see DESIGN 11.5
+        ctx.count("observed_outside_property:GaussianDiscrete_constructor_does_not_return_for_epsilon_above_709")
         return
     if not (s > 0) or math.isinf(s):
         report(ctx, pt, "C02:GaussianDiscrete:no-positive-sigma", "sigma", s, 0, "degenerate calibration")
@@ -1601,3 +1602,6 @@ def generate(ctx):
     if r["errors"]:
         r["unavailable"] = r["errors"]      # anchors that could not be located / translated (not failed obligations)
     return r
+
+
+
